@@ -840,7 +840,19 @@ def lookup_sites(prog):
                         a = tt
                 elif tt[0] == "const" and isinstance(tt[2], str):
                     a = tt
-            tag = a[2] if a[0] == "const" and isinstance(a[2], str) else ("<%s>" % tree_str(a))
+            if a[0] == "const" and isinstance(a[2], str):
+                tag = a[2]
+            else:
+                # a tag that is not a constant: name it after the parameter of the owning function it comes from
+                import panic_rules
+                ofn2, tt2 = panic_rules.translate_closure_tree(prog, f, R.operand(t["args"][1])) if f.kind == "Closure" else (f, a)
+                tt2 = strip(tt2)
+                while tt2[0] in ("cast", "ref"):
+                    tt2 = strip(tt2[2] if tt2[0] == "cast" else tt2[1])
+                if tt2[0] == "param" and ofn2.local_name(tt2[1]):
+                    tag = "<param:%s>" % ofn2.local_name(tt2[1])
+                else:
+                    tag = "<%s>" % tree_str(a)
             gen = [g for g in t["callee"].get("args", []) if not g.startswith("'")]
             ns_aware = not any(g.strip() == "&str" or g.strip().endswith("&str") for g in gen)
             out.append(dict(fn=p, owner=owner, tag=tag, ns_aware=ns_aware, block=bi, line=f.file_line(bi)))
@@ -873,11 +885,22 @@ def bodies_of(prog, path):
     terms of the function (captures become the function's values, the closure's item parameter becomes
     next(<receiver of the adapter it is handed to>))"""
     import panic_rules
+    cctx = panic_rules.closure_context(prog)
+
+    def owner_of(q):
+        # the function whose body builds the closure (after inlining this may be another one than its lexical parent)
+        for _ in range(4):
+            if q not in cctx:
+                return q.split("::{closure")[0] if "::{closure" in q else q
+            q = cctx[q][0].path
+            if prog.fns.get(q) is not None and prog.fns[q].kind != "Closure":
+                return q
+        return q
     out = []
     for p, g in sorted(prog.fns.items()):
         if p == path:
             out.append((g, lambda t: t))
-        elif p.startswith(path + "::{closure"):
+        elif g.kind == "Closure" and (p.startswith(path + "::{closure") or owner_of(p) == path):
             out.append((g, lambda t, g=g: panic_rules.translate_closure_tree(prog, g, t)[1]))
     return out
 
